@@ -49,7 +49,7 @@ PLANS = {
     ),
     'C08': dict(
         oracle='C08', level='exploration',
-        profiles=[('history', 2), ('hist_explicit', 3), ('pseudo', 1)], curated=[], configs=ALLCFG,
+        profiles=[('history', 2), ('hist_explicit', 3), ('pseudo', 1), ('pseudo_nc', 1)], curated=[], configs=ALLCFG,
         cp=dict(max_ops=30, kinds=['P']), examples=(400, 3000), floor=(40, 400),
         rule='Generated enter/move/exit histories on machines whose submachines carry each history policy (1-3 regions), incl. '
              'explicit/fork/entry-point entries; oracle: entry behaviours per root region and active states of active machines '
@@ -59,7 +59,7 @@ PLANS = {
     ),
     'C09': dict(
         oracle='C09', level='exploration',
-        profiles=[('pseudo', 5)], curated=[], configs=ALLCFG,
+        profiles=[('pseudo', 4), ('pseudo_nc', 2)], curated=[], configs=ALLCFG,
         cp=dict(max_ops=30, kinds=['P']), examples=(400, 3000), floor=(100, 1000),
         rule='Generated histories on machines combining direct<>, fork, entry_pt<> and exit_pt<> rows; oracle: every step that '
              'touches a pseudo construct (pseudo state entered/left, pseudo row consulted, or an exit point event sent while the '
@@ -69,7 +69,7 @@ PLANS = {
     ),
     'C10': dict(
         oracle='C10', level='exploration',
-        profiles=[('completion', 5)], curated=[], configs=ALLCFG,
+        profiles=[('completion', 3), ('completion_defer', 2), ('completion_sub', 2)], curated=[], configs=ALLCFG,
         cp=dict(max_ops=30, kinds=['P', 'P', 'P', 'P', 'Q', 'Q', 'X', 'T']), examples=(400, 3000), floor=(100, 1000),
         rule='Generated histories (process_event, enqueue_event, execute queued all/single, stop/start) on machines with completion '
              'rows (chains, conflicts, guards frozen per entry of the source); oracle: per (machine,region) completion behaviours == '
@@ -112,6 +112,9 @@ PLANS = {
     'C05': dict(
         oracle='C05', level='exploration',
         profiles=[('defer', 5), ('defer_nested', 5)], curated=[], configs=ALLCFG,
+        # counter boundaries: back tags deferred entries with a char, backmp11 with a uint16_t; a generator cannot reach 2^16
+        # handled events, a quiet repeat operation can
+        directed=[('seqwrap', ['S:0 P:0:1:0 RP:1:%d:0 P:2:2:0 N' % n for n in list(range(250, 262)) + list(range(65528, 65541))])],
         cp=dict(max_ops=30, kinds=['P', 'P', 'P', 'P', 'Q', 'X', 'N'], scripts={'p': ['r', 'Q']}),
         examples=(200, 2000), floor=(60, 600),
         rule='Generated histories on machines whose root-level states defer 1-2 event types (inside the documented back/back11 '
@@ -201,16 +204,16 @@ PLANS = {
         examples=(200, 1500),
         rule='Three sub-checks. (1) Front-end differential: generated flat machines (1-3 regions, conflicts, composite guards over '
              'logging atoms, action sequences of 0-3, internal and anonymous rows, flags, terminate states) are emitted with functor '
-             'rows, with basic rows (row/a_row/g_row/_row/irow family, every third row through the row2 family) and as a PlantUML '
-             'string in two renderings (canonical; other arrow lengths, padding and action/guard order), compiled on back, back11 and '
-             'backmp11; the same generated case must give the same trace on every variant and equal the model. (2) PlantUML tokenizer: '
+             'rows, with basic rows (row/a_row/g_row/_row/irow family, every third row through the row2 family), as an eUML '
+             'transition-table expression (back/back11) and as a PlantUML string in two renderings (canonical; other arrow lengths, '
+             'padding and action/guard order), compiled on back, back11 and backmp11; the same generated case must give the same trace on every variant and equal the model. (2) PlantUML tokenizer: '
              'libFuzzer + ASan/UBSan target decodes bytes into documents of the documented line grammar and checks the round trip and '
              're-styling invariance of parse_row/parse_stt/parse_inits/parse_action/count_* at run time. (3) PlantUML guard parser: '
              'random guard strings (atoms, !, &&, ||, one level of parentheses) parsed at compile time are evaluated over all 32 '
              'valuations and compared, including the order of atom evaluations, with the same text compiled as a C++ expression. '
              'Non-trivial = (1) a step with a composite guard or an action sequence, (2) a row with >= 2 optional parts, (3) an '
              'expression with >= 2 operator kinds or parentheses.',
-        assumptions=['the eUML front-end is not covered by this revision', 'state-local internal tables are compared between functor and basic only (PlantUML cannot express them)'],
+        assumptions=['state-local internal tables are compared between functor and basic only (PlantUML / the generated eUML cannot express them)'],
     ),
     'C15': dict(
         oracle='C15', level='exploration', mode='copy',
